@@ -6,14 +6,14 @@ LEVEL_TEXT = ("theorems about a hand-written executable Gallina model of the cra
               "histories / configurations the property quantifies over, tied to /repo's current working tree on every run by a "
               "differential correspondence (extracted model vs. the implementation built from /repo) on the property's projection")
 NOTE = ("trusted: Coq kernel + VM; the Rust->Gallina transcription (sampled by the correspondence, exhaustively on finite "
-        "sub-domains); extraction (ExtrOcamlBasic only) + OCaml glue; Rust harness printer; nom/heapless/core semantics as modelled")
+        "sub-domains, and on inputs retained by a coverage-guided search of the tree under test); extraction (ExtrOcamlBasic only) + OCaml glue; Rust harness printer; nom/heapless/core semantics as modelled")
 claimed = {
- 'C04': ('layout theorems (Coq) + differential correspondence', '6 C04', 'per type the decoded message equals the ITU layout function of the payload bits (type 15: at every length, the positional specification interrogation_of)'),
+ 'C04': ('layout theorems and round trips from field values, also through armouring, fragmentation and framing (Coq) + differential correspondence', '6 C04', 'per type the decoded message equals the ITU layout function of the payload bits (type 15: at every length, the positional specification interrogation_of)'),
  'C09': ('dispatch theorem (Coq, 64-way case split) + differential correspondence', '6 C09', ''),
  'C02': ('grammar/checksum theorems (Coq) + differential correspondence on outcome and checksum values', '6 C02', ''),
  'C06': ('invariant of a ghost-instrumented state machine by induction over histories (Coq) + exhaustive short histories and random long ones against the implementation', '6 C06', ''),
  'C07': ('sentence-shape theorems (Coq) + differential correspondence on sentence fields, the two address tables exhaustively (2^16 talkers, 2^24 report types) and every adjacent byte pair through digest sweeps', '6 C07', ''),
- 'C08': ('accepted <-> WellFormed, both directions (Coq) + mutation / near-miss correspondence and every adjacent byte pair of several sentence shapes (digest sweeps)', '6 C08', ''),
+ 'C08': ('accepted <-> WellFormed, both directions; u8::from_str and nom hex_u32 transcribed and proved equal to the model (Coq) + mutation / near-miss correspondence and every adjacent byte pair of several sentence shapes (digest sweeps)', '6 C08', ''),
  'C01': ('no-Panic theorems over an executable model in which every panicking Rust operation is an explicit Panic result (Coq) + catch_unwind/watchdog runs of debug and release builds of the three feature sets', '6 C01', 'partial for the runtime: memory safety and termination of the implementation itself are sampled, not proved'),
  'C03': ('equality of the buffer algorithm with the 6-bit unpacking specification for all strings and fills (Coq: induction four characters at a time + finite sweeps) + exhaustive byte/phase/fill correspondence', '6 C03', ''),
  'C19': ('theorems pinning the as-is value, refuting the property on a witness and proving it for the repaired model (Coq) + three-way correspondence (impl / as-is model / repaired model); known finding', '6 C19', 'the unchanged tree violates the property: recorded as a known finding'),
@@ -23,11 +23,11 @@ claimed = {
  'C13': ('trim/character-table theorems (Coq) + one-hot sweeps and structured texts against the implementation', '6 C13', ''),
  'C15': ('data = input bytes after the header, for every length (Coq) + every payload length 0..125 in three builds', '6 C15', ''),
  'C16': ('layout theorems for the 19-bit state per type; type 9: as-is pinned, refuted on a witness, proved for the repaired model (Coq) + three-way correspondence; known finding', '6 C16', 'type 9 violates the property on the unchanged tree: recorded as a known finding'),
- 'C05': ('in-order reassembly theorem from any state for any n >= 2 (Coq, induction over the fragment list) + groups of 2..12 fragments under five kinds of prior history with interleaved lines and the Option/Result conversions', '6 C05', ''),
+ 'C05': ('in-order reassembly theorem from any state for any n >= 2 and transmit-then-receive theorem over a specification-side transmitter (Coq, induction over the fragment list) + groups of 2..12 fragments under five kinds of prior history with interleaved lines and the Option/Result conversions', '6 C05', ''),
  'C14': ('per-type length thresholds and element counts as functions of the number of bits present (Coq) + every type x every byte length', '6 C14', ''),
  'C18': ('std = alloc by computation; no-alloc refines std up to Nmea rejection at message, unarmor, sentence and step level (Coq) + three (thorough: six) builds run on the other properties\' streams and capacity boundaries', '6 C18', 'std-vs-alloc Rust builds are tied by correspondence, not proof'),
  'C20': ('theorems about the CLI loop as a function of stdin bytes (Coq) + the real binary run through pipes, compared record by record with the model and with the library in process', '6 C20', 'partial for the runtime: read errors, closed stdout, exit status are observed on the binary, not modelled'),
- 'C17': ('state-transparency theorems lifted to histories (Coq) + metamorphic insert/remove runs and two-parser interleavings', '6 C17', 'independence of parser instances is validated, not proved'),
+ 'C17': ('state-transparency theorems lifted to histories, independence of two instances on interleaved histories (Coq) + metamorphic insert/remove runs and two-parser interleavings', '6 C17', 'that the implementation keeps no state outside the parser value is what the interleaving runs check'),
 }
 pending = {}
 props = [json.loads(l) for l in open(os.path.join(V, 'properties.jsonl'))]
@@ -56,6 +56,7 @@ m = {'version': 1,
      'engines': [{'name': 'coq-model', 'path': 'coq', 'serves_properties': [c['property_id'] for c in checks], 'kind_free_text': 'Coq 8.16 development: executable model, specs, proofs, property theorems'},
                  {'name': 'ocaml-driver', 'path': 'driver', 'serves_properties': [c['property_id'] for c in checks], 'kind_free_text': 'extracted model + driver printing canonical token trees'},
                  {'name': 'rust-harness', 'path': 'harness', 'serves_properties': [c['property_id'] for c in checks], 'kind_free_text': 'links /repo by path (3 feature sets x 2 profiles), prints the same token trees'},
+                 {'name': 'exploration', 'path': 'explore', 'serves_properties': [c['property_id'] for c in checks], 'kind_free_text': 'coverage-guided search (libFuzzer via cargo-fuzz, nightly toolchain) on the tree under test; proposes inputs for the correspondence, decides nothing, optional (DESIGN.md section 13)'},
                  {'name': 'orchestrator', 'path': 'check', 'serves_properties': [c['property_id'] for c in checks], 'kind_free_text': 'generators, differ, verdict, evidence'}],
      'checks': checks,
      'notes': 'fix: commits in /repo and the two known findings are listed in known_findings.json and DESIGN.md section 5',
